@@ -14,7 +14,9 @@ from sktime.utils.validation.series import check_series
 
 
 def _from_series_to_2d_numpy(x):
-    x = x.to_numpy()
+    # a copy: the wrapped scikit-learn transformer may work in place (copy=False),
+    # and `to_numpy` can return a view of the caller's data
+    x = x.to_numpy(copy=True)
     if x.ndim == 1:
         x = x.reshape(-1, 1)
     return x
